@@ -28,6 +28,16 @@ Definition remap_tbl (f k : N) (v : Z) : option Z :=
   | _ => if Z.even v then None else Some (2 * v + 1)
   end.
 
+(* the remapping functions of the concurrent programs (harness cremap): a computed value moves its
+   argument into a higher band, so that no two writes of a run produce the same value for a key *)
+Definition cremap_tbl (f k : N) (v : Z) : option Z :=
+  match f with
+  | 0%N => None
+  | 1%N => Some (v + 1000000)
+  | 2%N => Some (v + 2000000)
+  | _ => if Z.even v then None else Some (v + 3000000)
+  end.
+
 Inductive acc :=
 | ABinLoad | ABinCas | ABinStore
 | AValLoad | AValWrite
